@@ -2,6 +2,7 @@ package checks
 
 import (
 	"fmt"
+	"reflect"
 
 	"verifharness/drv"
 	"verifharness/gen"
@@ -23,7 +24,11 @@ func c02Random(seed uint64, i int, ntexts int) *c01Case {
 	}
 	pg := gen.NewPG(rng, sc)
 	p := pg.FindProgram()
-	// make sure at least one capture exists and is followed by a back-reference now and then
+	if i%3 == 1 {
+		// named loops: bindings made inside go to the loop's per-iteration maps
+		n := 0
+		p.Commands[0].Body = gen.NameLoops(rng, p.Commands[0].Body, &n)
+	}
 	src := gen.RenderProgram(p)
 	sm := gen.NewSampler(rng, p, TextAlphaFor(sc.Alpha))
 	texts := sm.Inputs(p.Commands[0].Body, ntexts, maxLenFor(p, 14))
@@ -65,6 +70,9 @@ func spansVarsEqual(got []wire.Match, exp []ref.Span) (bool, string) {
 			return false, "span"
 		}
 		gv := flatVars(got[i].Vars)
+		if sameVars(gv, exp[i].Vars) && !reflect.DeepEqual(normWire(got[i].Vars), normRefTree(exp[i].Tree)) {
+			return false, "named-loop-variables"
+		}
 		if !sameVars(gv, exp[i].Vars) {
 			// classify: stale (extra name), missing, wrong text
 			for k := range gv {
@@ -86,7 +94,7 @@ func spansVarsEqual(got []wire.Match, exp []ref.Span) (bool, string) {
 func fmtExp(sp []ref.Span) string {
 	s := ""
 	for _, x := range sp {
-		s += fmt.Sprintf("[%d,%d)%s ", x.S, x.E, fmtVars(x.Vars))
+		s += fmt.Sprintf("[%d,%d)%s ", x.S, x.E, fmtNested(normRefTree(x.Tree)))
 	}
 	return "{" + s + "}"
 }
@@ -94,7 +102,7 @@ func fmtExp(sp []ref.Span) string {
 func fmtGot(ms []wire.Match) string {
 	s := ""
 	for _, x := range ms {
-		s += fmt.Sprintf("[%d,%d)%s ", x.S, x.E, fmtVars(flatVars(x.Vars)))
+		s += fmt.Sprintf("[%d,%d)%s ", x.S, x.E, fmtNested(normWire(x.Vars)))
 	}
 	return "{" + s + "}"
 }
@@ -151,6 +159,14 @@ func checkVarsCase(r *drv.Run, cs *c01Case, res *wire.Result, label string) {
 				r.Nontrivial(cs.src + "\x00" + string(text))
 			}
 		}
+		for _, m := range alts[0] {
+			for _, v := range m.Tree {
+				if v.IsMap {
+					r.Count("matches_with_named_loop_maps", 1)
+					break
+				}
+			}
+		}
 		if run.Kinds["MatchVariable"] > 0 {
 			r.Count("runs_executing_backreference", 1)
 		}
@@ -180,6 +196,12 @@ func enumCaptureShapes() []*gen.Program {
 				mk(gen.SubDef{Name: "s", Body: []gen.Node{cap("x", A), gen.Loop{Min: 0, Max: 1, Form: "maybe", Body: gen.SubCall{Name: "s"}}, B}}, gen.Loop{Min: 0, Max: 1, Form: "maybe", Body: C})
 				// two captures, earlier value must survive a failed later alternative
 				mk(cap("x", A), gen.Or{Alts: []gen.Node{gen.Seq{Items: []gen.Node{cap("y", B), C}}, gen.Seq{Items: []gen.Node{gen.BackRef{Name: "x"}}}}})
+				// bindings inside named loops: directly, under an inner unnamed loop, under an inner named loop
+				alt := gen.Or{Alts: []gen.Node{gen.Seq{Items: []gen.Node{cap("x", A), B}}, gen.Seq{Items: []gen.Node{C}}}}
+				mk(gen.Loop{Min: 0, Max: -1, Form: "atleast", Name: "r", Body: alt})
+				mk(gen.Loop{Min: 1, Max: -1, Form: "atleast", Name: "r", Body: gen.Seq{Items: []gen.Node{gen.Loop{Min: 0, Max: 3, Form: "atmost", Body: alt}}}})
+				mk(gen.Loop{Min: 1, Max: 3, Form: "between", Lazy: true, Name: "r", Body: gen.Seq{Items: []gen.Node{gen.Loop{Min: 0, Max: 1, Form: "maybe", Body: gen.Seq{Items: []gen.Node{cap("x", A), B}}}, C}}})
+				mk(gen.Loop{Min: 1, Max: -1, Form: "atleast", Name: "r", Body: gen.Seq{Items: []gen.Node{gen.Loop{Min: 1, Max: -1, Form: "atleast", Name: "q", Body: gen.Or{Alts: []gen.Node{gen.Seq{Items: []gen.Node{cap("x", A)}}, B}}}, C}}})
 				// empty capture and its back-reference
 				mk(A, cap("x", gen.Seq{Items: []gen.Node{gen.Loop{Min: 0, Max: 1, Form: "maybe", Body: B}}}), gen.BackRef{Name: "x"}, gen.Loop{Min: 0, Max: 1, Form: "maybe", Body: C})
 			}
@@ -194,9 +216,9 @@ func C02(r *drv.Run) {
 	if !quick(r) {
 		nprog, ntext = 100000, 16
 	}
-	r.Rule = "capture-heavy generator: `= name` bindings inside first alternatives that then fail, inside maybe/at most/at least 0 iterations that get abandoned, inside recursive subroutines, followed by back-references; inputs are near misses derived from the program; plus an exhaustive family of 7 capture shapes x 4^3 literal choices x all texts over {a,b} up to length 4. Oracle: reference backtracker with a persistent environment gives the exact expected variable map of every match (spans AND flat variables must equal). Non-trivial = expected match carries >= 1 binding AND the VM backtracked; distinct by (program, text)."
+	r.Rule = "capture-heavy generator: `= name` bindings inside first alternatives that then fail, inside maybe/at most/at least 0 iterations that get abandoned, inside recursive subroutines, followed by back-references; inputs are near misses derived from the program; plus an exhaustive family of 11 capture shapes (4 of them inside named loops, directly / under an inner unnamed loop / under an inner named loop) x 4^3 literal choices x all texts over {a,b} up to length 4. Oracle: reference backtracker with a persistent environment gives the exact expected variable map of every match (spans AND flat variables must equal). Non-trivial = expected match carries >= 1 binding AND the VM backtracked; distinct by (program, text)."
 	r.Assumptions = []string{
-		"flat `= name` captures only; named-loop maps are checked structurally by C03/C17",
+		"named-loop variable maps are compared after dropping iteration entries that hold nothing (vore opens the map of an iteration before it knows whether the iteration will run)",
 		"reference matcher semantics as in C01 (word-anchor boundary cases are don't-care)",
 		"captures never under loops with a minimum >= 1 (vore rejects: name clash) nor inside global patterns",
 	}
@@ -225,6 +247,9 @@ func C02(r *drv.Run) {
 		expensiveFloor(r)
 		if r.Counter("matches_with_bindings") == 0 {
 			r.Inconclusive("no match carried a binding")
+		}
+		if r.Counter("matches_with_named_loop_maps") == 0 {
+			r.Inconclusive("no match carried a named-loop variable map")
 		}
 		if r.Counter("runs_executing_backreference") == 0 {
 			r.Inconclusive("no back-reference was executed")
